@@ -200,6 +200,20 @@ var backends = []backend{
 	{"cvc5-1.0", func(f string, t int) []string {
 		return []string{"cvc5", fmt.Sprintf("--tlimit=%d", t*1000), "--lang=smt2", f}
 	}},
+	// the same solvers with other random seeds: quantifier instantiation is sensitive to the search order,
+	// and a portfolio of seeds makes a proof that exists much less dependent on luck and machine load
+	{"z3-5.1.0/seed3", func(f string, t int) []string {
+		return []string{"z3-new", fmt.Sprintf("-T:%d", t), "smt.random_seed=3", "sat.random_seed=3", f}
+	}},
+	{"z3-5.1.0/seed7", func(f string, t int) []string {
+		return []string{"z3-new", fmt.Sprintf("-T:%d", t), "smt.random_seed=7", "sat.random_seed=7", f}
+	}},
+	{"z3-4.8.12/seed5", func(f string, t int) []string {
+		return []string{"/usr/bin/z3", fmt.Sprintf("-T:%d", t), "smt.random_seed=5", f}
+	}},
+	{"z3-5.1.0/case3", func(f string, t int) []string {
+		return []string{"z3-new", fmt.Sprintf("-T:%d", t), "auto_config=false", "smt.case_split=3", f}
+	}},
 }
 
 func runOne(ctx context.Context, b backend, file string, timeoutS int) SolverResult {
